@@ -1,5 +1,5 @@
 # replay of a bounded stand-in violation (C11): re-run native/c11_compilers.py
 import sys
-print("gaussian_merge n=3 gates=[('Rgate', (0,)), ('CKgate', (1, 2)), ('BSgate', (1, 2)), ('BSgate', (2, 0)), ('Kgate', (0,)), ('Sgate', (1,))]: running the compiled program raised ValueError: The input matrix is not unitary")
+print("gaussian_merge n=4 gates=[('BSgate', (2, 1)), ('Sgate', (3,)), ('S2gate', (2, 3)), ('Vgate', (1,)), ('BSgate', (3, 2)), ('MZgate', (2, 3)), ('BSgate', (0, 1)), ('Kgate', (1,)), ('S2gate', (0, 2)), ('Rgate', (1,)), ('Dgate', (3,)), ('Vgate', (0,)), ('BSgate', (1, 0)), ('S2gate', (3, 1)), ('Kgate', (1,)), ('MZgate', (0, 1)), ('Sgate', (2,)), ('MZgate', (3, 2))]: compile raised NetworkXUnfeasible: Graph contains a cycle or graph changed during iteration")
 print('REPLAY-VIOLATION')
 sys.exit(1)
